@@ -540,8 +540,14 @@ def _grid_sim_class():
 
             def __init__(self, move_cls=None, attack_cls=None, **kwargs):
                 super().__init__(**kwargs)
-                self.move_actor = move_cls(**kwargs) if move_cls is not None else None
-                self.attack_actor = attack_cls(**kwargs) if attack_cls is not None else None
+                # the two actors add their channels to the agents' spaces and null actions when they
+                # are constructed: either order of construction must give members of the spaces
+                if len(kwargs.get("agents", {})) % 2:
+                    self.attack_actor = attack_cls(**kwargs) if attack_cls is not None else None
+                    self.move_actor = move_cls(**kwargs) if move_cls is not None else None
+                else:
+                    self.move_actor = move_cls(**kwargs) if move_cls is not None else None
+                    self.attack_actor = attack_cls(**kwargs) if attack_cls is not None else None
                 self.finalize()
 
             def step(self, action_dict, **kwargs):
